@@ -1,9 +1,11 @@
+from copy import deepcopy
 from typing import Any, Optional
 from functools import total_ordering
 from enum import Enum
 
 from flamapy.core.exceptions import FlamaException
 from flamapy.core.models import AST, VariabilityModel, VariabilityElement, ASTOperation
+from flamapy.core.models.ast import Node
 from flamapy.core.models.ast import LOGICAL_OPERATORS, ARITHMETIC_OPERATORS, AGGREGATION_OPERATORS
 from flamapy.core.models.ast import simplify_formula, propagate_negation, to_cnf
 
@@ -663,9 +665,32 @@ def left_right_features_from_simple_constraint(
     return (left, right)
 
 
+def expand_xor_and_equivalence(node: Node) -> Node:
+    """Return a copy of the expression where 'P xor Q' is written as '(P or Q) and (!P or !Q)'
+    and 'P <=> Q' as '(P => Q) and (Q => P)'.
+
+    simplify_formula (flamapy.core) loses one operand of these two operators, so they are
+    rewritten before an expression is handed to it (or to AST.to_cnf / AST.get_clauses)."""
+    if node is None or not node.is_op():
+        return node
+    left = expand_xor_and_equivalence(node.left)
+    right = expand_xor_and_equivalence(node.right)
+    if node.data == ASTOperation.XOR:
+        return Node(ASTOperation.AND,
+                    Node(ASTOperation.OR, left, right),
+                    Node(ASTOperation.OR,
+                         Node(ASTOperation.NOT, deepcopy(left)),
+                         Node(ASTOperation.NOT, deepcopy(right))))
+    if node.data == ASTOperation.EQUIVALENCE:
+        return Node(ASTOperation.AND,
+                    Node(ASTOperation.IMPLIES, left, right),
+                    Node(ASTOperation.IMPLIES, deepcopy(right), deepcopy(left)))
+    return Node(node.data, left, right)
+
+
 def split_constraint(constraint: Constraint) -> list[Constraint]:
     """Given a constraint, split it in multiple constraints separated by the AND operator."""
-    asts = split_formula(constraint.ast)
+    asts = split_formula(AST(expand_xor_and_equivalence(constraint.ast.root)))
     asts_simplified = [simplify_formula(ast) for ast in asts]
     asts = []
     for ctc in asts_simplified:
